@@ -64,6 +64,8 @@ class EditCorr:
         self.by_src = {}            # normalised source -> template tuple
         self.sent_defs = set()
         self.sent_rvals = set()
+        self.spelling = {}          # id(space impl) -> the name its slots were first declared under
+        self.declared = set()
         self.alive = True
         self.ended = None
         self.started = False
@@ -105,8 +107,20 @@ class EditCorr:
             tgt = sp.refs.get(t[4]) if t[4] in sp.refs and t[4] not in sp.spaces else None
             if tgt is None or type(tgt).__name__ != "UserSpace" or tgt.parent is not live.m:
                 return None
-            a = tgt.name
-            pre.append("slot %s %s" % (a, t[3]))
+            # the slot keeps the spelling it was declared under when the space is renamed (`Edit.Tabs.spell`: the
+            # reference follows the object); a slot that would have to be declared for a space AFTER it was renamed,
+            # or under a name that spelled another space, is outside what the driver's `slot` line can say
+            first = self.spelling.get(id(tgt._impl))
+            if first is None:
+                if tgt.name in self.spelling.values():
+                    return None
+                first = self.spelling[id(tgt._impl)] = tgt.name
+            if first != tgt.name and (first, t[3]) not in self.declared:
+                return None
+            a = first
+            if (first, t[3]) not in self.declared:
+                self.declared.add((first, t[3]))
+                pre.append("slot %s %s" % (a, t[3]))
         elif t[0] == 16:
             for p_, _s in W.all_spaces(live.m):
                 pre.append("slot %s %s" % (p_, t[3]))
@@ -296,14 +310,6 @@ class EditCorr:
                 self.end(k, kind)
             return
         got = self.ask(pre + [line])[-1]
-        slots = got.endswith(" SLOTS")
-        if slots:
-            # a declared attribute slot lies in a relabelled space: outside the side condition of the rename theorems
-            # (`Edit.slotsFixed`; the code follows the object, the model the path)
-            got = got[:-len(" SLOTS")]
-            if acc and got == "acc":
-                self.end(k, "rename_space:slots")
-                return
         uncovered = got.endswith(" UNCOVERED")
         if uncovered:
             got = got[:-len(" UNCOVERED")]
@@ -473,6 +479,37 @@ def rename_scenarios():
     return cases
 
 
+def slot_rename_scenarios():
+    """Renames of a space THROUGH which other spaces read (`T.c = S.r`, `S` a reference of `T` to the space: the
+    reference follows the object, the declared slot keeps its spelling - `Edit.Tabs.spell`) and whose own cells read
+    `_space.r` / `r`: the rename itself keeps what `T` holds; afterwards the slot of the renamed space is edited
+    (own reference, model-level reference, a base, deletion of the reference / of the space), another space takes
+    the old name."""
+    F = lambda i, k=1, a="f", r="r", c="S": (i, k, a, r, c)     # noqa
+    EA = ["evalall"]
+    edits = [
+        [["rename_space", "S", "Z"]],
+        [["rename_space", "S", "Z"], EA, ["set_ref", "Z", "r", 7]],
+        [["rename_space", "S", "Z"], EA, ["set_mref", "r", 4]],
+        [["rename_space", "S", "Z"], EA, ["new_space", "-", "B", []], ["set_ref", "B", "r", 5], ["add_bases", "Z", ["B"]]],
+        [["set_ref", "S", "r", 7], EA, ["rename_space", "S", "Z"], EA, ["del_ref", "Z", "r"]],
+        [["rename_space", "S", "Z"], EA, ["del_space", "Z"]],
+        [["rename_space", "S", "Z"], EA, ["rename_space", "S2", "S"], EA, ["set_ref", "S", "r", 2], EA, ["set_ref", "Z", "r", 3]],
+        [["rename_space", "S", "Z"], ["new_space", "-", "S", []], ["set_ref", "S", "r", 9], EA, ["del_mref", "r"]],
+    ]
+    cases = []
+    for cached in (1, 0):
+        base = [["set_mref", "r", 1], ["new_space", "-", "S", []], ["new_space", "-", "S2", []], ["new_space", "-", "T", []],
+                ["set_ref", "T", "S", ("obj", "S")], ["set_ref", "T", "S2", ("obj", "S2")],
+                ["new_cells", "S", "f", F(2)], ["new_cells", "S", "g", F(16)], ["new_cells", "T", "c", F(3)],
+                ["new_cells", "T", "c2", F(3, 1, "f", "r", "S2")], ["new_cells", "T", "d", F(1, 1, "c")]]
+        if not cached:
+            base += [["set_cached", "S", "g", 0], ["set_cached", "T", "c", 0]]
+        for e in edits:
+            cases.append([list(o) for o in base] + [EA] + [list(o) for o in e] + [EA])
+    return cases
+
+
 def shadow_scenarios():
     """Scenario family "a name changes what it denotes through an edit ELSEWHERE" x "how the reader spelled it": a
     model-level reference `x`; a space `S`; readers of `x` as seen from `S`: by bare name (`S.f`), as `_space.x`
@@ -616,6 +653,11 @@ def run_family(ctx, out, n_quick=90, n_thorough=2500, ops_range=(14, 30)):
     for ops in rename_scenarios():
         run_history(ops, out, stats)
         stats["edit_rename_scenarios"] += 1
+        if out.disagreements:
+            return stats
+    for ops in slot_rename_scenarios():
+        run_history(ops, out, stats, objrefs=True)
+        stats["edit_slot_rename_scenarios"] += 1
         if out.disagreements:
             return stats
     for ops in shadow_scenarios():
